@@ -35,6 +35,14 @@ pub fn replay_case() -> Option<Value> {
     v.get("case").cloned()
 }
 
+/// Self-test switch: `VMON_SELFTEST_BREAK=<prop>` plants a break into the harness's *own*
+/// reference for that property (never set by ./vcheck); used to see that the violation path,
+/// the replay file and `--replay` work end to end.
+pub fn selftest(prop: &str) -> bool {
+    static V: std::sync::OnceLock<String> = std::sync::OnceLock::new();
+    V.get_or_init(|| std::env::var("VMON_SELFTEST_BREAK").unwrap_or_default()) == prop
+}
+
 pub fn hex_sig(b: &[u8]) -> String {
     if b.len() <= 2048 {
         vmon_core::hex(b)
@@ -226,22 +234,38 @@ pub fn minimise(input: &[u8], mut bad: impl FnMut(&[u8]) -> bool, budget: usize,
         }
         write_be(cur, off, w, hi);
     };
-    if !truncate_only {
-        for w in [4usize, 2, 1, 8, 4, 2, 1] {
-            if cur.len() >= w && calls + 70 < budget {
-                let off = cur.len() - w;
-                search(&mut cur, off, w, &mut calls, &mut bad);
+    let mut restarts = 0;
+    'again: loop {
+        if !truncate_only {
+            for w in [4usize, 2, 1, 8, 4, 2, 1] {
+                if cur.len() >= w && calls + 70 < budget {
+                    let off = cur.len() - w;
+                    search(&mut cur, off, w, &mut calls, &mut bad);
+                }
             }
         }
-    }
-    // 3b. smallest window values everywhere; not field-monotone (a window may straddle a field
-    // boundary), hence skipped in truncate_only mode
-    for w in if truncate_only { vec![] } else { vec![8usize, 4, 2] } {
-        let mut off = 0;
-        while off + w <= cur.len() && calls + 70 < budget {
-            search(&mut cur, off, w, &mut calls, &mut bad);
-            off += 1;
+        // 3b. smallest window values everywhere; not field-monotone (a window may straddle a field
+        // boundary), hence skipped in truncate_only mode. When a window changes, a shorter prefix
+        // may have become sufficient: truncate and start over from the new tail.
+        for w in if truncate_only { vec![] } else { vec![8usize, 4, 2] } {
+            let mut off = 0;
+            while off + w <= cur.len() && calls + 70 < budget {
+                let before = read_be(&cur, off, w);
+                search(&mut cur, off, w, &mut calls, &mut bad);
+                if read_be(&cur, off, w) != before && off + w < cur.len() && restarts < 6 {
+                    if let Some(l) = (0..=off + w).find(|l| {
+                        calls += 1;
+                        bad(&cur[..*l])
+                    }) {
+                        cur.truncate(l);
+                        restarts += 1;
+                        continue 'again;
+                    }
+                }
+                off += 1;
+            }
         }
+        break;
     }
     // 4. smallest byte values, left to right (lowering a length byte can shift the rest of the
     // parse, so this is skipped in truncate_only mode)
